@@ -113,6 +113,29 @@ func (o *oracles) afterRestart(durable snap) {
 	o.checkChain(durable, now)
 }
 
+// afterRedelivery (C10, last sentence): before is the node's state at the quiescent point before the event during
+// which the process stopped (nothing but that event was in flight); once the node was restarted and the event
+// delivered again it must have reached at least that position and chain again, since without the stop it would
+// never have gone below it.
+func (o *oracles) afterRedelivery(before, after snap) {
+	if !o.on["C10"] || !before.ok || !after.ok {
+		return
+	}
+	o.res.Count("redeliveries_checked", 1)
+	if lexLess([2]uint64{after.voting.Height, uint64(after.voting.Round)}, [2]uint64{before.voting.Height, uint64(before.voting.Round)}) {
+		o.violate("C10", "voting-position-behind-pre-stop-position", fmt.Sprintf("before the stop the node was voting on %d/%d; restarted and with the interrupted message delivered again it is voting on %d/%d", before.voting.Height, before.voting.Round, after.voting.Height, after.voting.Round))
+	}
+	if lexLess([2]uint64{after.committing.Height, uint64(after.committing.Round)}, [2]uint64{before.committing.Height, uint64(before.committing.Round)}) {
+		o.violate("C10", "committing-position-behind-pre-stop-position", fmt.Sprintf("before the stop the node was committing %d/%d; restarted and with the interrupted message delivered again it is committing %d/%d", before.committing.Height, before.committing.Round, after.committing.Height, after.committing.Round))
+	}
+	for h, ch := range before.headers {
+		nh, ok := after.headers[h]
+		if !ok || string(nh.Header.Hash) != string(ch.Header.Hash) {
+			o.violate("C10", "committed-header-lost-across-stop", fmt.Sprintf("committed header at height %d changed or vanished across the stop", h))
+		}
+	}
+}
+
 // endKey is the part of the final state that C10 compares with the crash-free run of the same history.
 func endKey(sn snap) string {
 	var sb strings.Builder
